@@ -893,6 +893,12 @@ def run(prop, tier):
         }
     )
     props_c18x.merge_coverage(res, results)  # WP3
+    try:  # wp2_bfull2: whole-rule (B-full) correspondence of the indent / vertical-spacing families (regions of interest compared)
+        import props_bfull2
+
+        props_bfull2.extra(res, tier, "C18")
+    except ImportError:
+        pass
     res.assumptions = [
         "extractors outside the modelled set are covered by the per-run slice certificate (Lean checker on the explored runs), not by a theorem",
         "bisect is modelled on sorted lists (proved for every list process_tokens builds); a token class without docstring unique_id makes extract_unique_id raise AttributeError, which no class of the generated table does",
